@@ -21,7 +21,7 @@ Definition old_code : code := {|
   k_ns_arg := k_ns_arg the_code; k_ns_decide := k_ns_decide the_code; k_sup_tpl := k_sup_tpl the_code;
   k_guard_type := k_guard_type the_code; k_guard_header := k_guard_header the_code; k_guard_copy := k_guard_copy the_code;
   k_types_all_when_ns := k_types_all_when_ns the_code;
-  k_fix_lookup := false; k_fix_nonj2 := false; k_fix_suptpl := false; k_path_pure := k_path_pure the_code; k_ns_check := k_ns_check the_code; k_fix_constref := false |}.
+  k_fix_lookup := false; k_fix_nonj2 := false; k_fix_suptpl := false; k_path_pure := k_path_pure the_code; k_ns_check := k_ns_check the_code; k_fix_constref := false; k_stem_check := k_stem_check the_code |}.
 
 Definition old_listed (c : cfg) (i : inputs) : list (list (list N)) := snd (fst (run old_code (li_of c) i fs_empty)).
 
@@ -51,3 +51,22 @@ Theorem C08_history_support_override_was_refuted :
     /\ path_in x (influence_set old_code c i) = true /\ path_in x (old_listed c i) = false.
 Proof. exists (w_cfg SAsNeeded false None (Some w_sup_dir)), w_inputs_plain, [[100]; [115]]. vm_compute. repeat split; reflexivity. Qed.
 Print Assumptions C08_history_support_override_was_refuted.
+
+(* F-LIST-INPUTS-CONSTREF (fixed by 430d028): with the dependency listing of bf5515b, which follows the types of fields only, a
+   definition referred to only inside an expression (array capacity, constant value, @assert, @extent) influenced the output and
+   was not listed.  `code_before_constref` is today's translation with that one repair switched off. *)
+Definition code_before_constref : code := {|
+  k_sgs := k_sgs the_code; k_reject := k_reject the_code; k_read := k_read the_code; k_prog := k_prog the_code;
+  k_ns_arg := k_ns_arg the_code; k_ns_decide := k_ns_decide the_code; k_sup_tpl := k_sup_tpl the_code;
+  k_guard_type := k_guard_type the_code; k_guard_header := k_guard_header the_code; k_guard_copy := k_guard_copy the_code;
+  k_types_all_when_ns := k_types_all_when_ns the_code;
+  k_fix_lookup := k_fix_lookup the_code; k_fix_nonj2 := k_fix_nonj2 the_code; k_fix_suptpl := k_fix_suptpl the_code;
+  k_path_pure := k_path_pure the_code; k_ns_check := k_ns_check the_code; k_fix_constref := false;
+  k_stem_check := k_stem_check the_code |}.
+Theorem C08_history_constref_was_refuted :
+  exists (c : cfg) (i : inputs) (x : list (list N)),
+    trig_constref i = true /\ trig_lookup i = false
+    /\ path_in x (influence_set code_before_constref c i) = true
+    /\ path_in x (snd (fst (run code_before_constref (li_of c) i fs_empty))) = false.
+Proof. exists (w_cfg SAsNeeded false None None), w_inputs_constref, [[108]; [68]]. vm_compute. repeat split; reflexivity. Qed.
+Print Assumptions C08_history_constref_was_refuted.
